@@ -132,6 +132,7 @@ def case_strategy():
                 # the method's own scope rebinds a builtin name the generated lookup might rely on
                 "shadow": draw(st.sampled_from([None, None, None, "type", "isinstance", "tuple"])),
                 "mlstr": draw(st.sampled_from([None, None, None, "", "\\n    indented"])),
+                "private": host == "method" and draw(st.integers(0, 3)) == 0,
                 # how the body spells the recursion: the special `recurse`, the function's own name (a global, or a
                 # closure cell when the functions are built in a factory), or both
                 "recname": draw(st.sampled_from(["recurse", "recurse", "self", "both"])) if host == "func" else "recurse"}
@@ -203,6 +204,8 @@ def render(spec, real):
     lines = []
     if method:
         lines.append("class Host(OvldBase):")
+        if spec.get("private"):
+            lines.append("    __priv = ('private', 1)")
 
     def emit_def(deco, sig, body_lines):
         if not method and not deco:
@@ -226,6 +229,8 @@ def render(spec, real):
     body = [f"{ind}acc = []", f"{ind}v = 1"]
     if spec.get("shadow"):
         body.append(f"{ind}{spec['shadow']} = 5")
+    if spec.get("private") and method:
+        body.append(f"{ind}acc.append(self.__priv)")  # a class-private name (mangled by the compiler)
     if spec.get("mlstr"):
         # a multi-line string literal whose continuation lines sit left of the (indented) def
         body += [f'{ind}acc.append("""m1', "  m2", f'm3{spec["mlstr"]}""")']
@@ -482,6 +487,8 @@ def nesting_labels(text):
 
 
 def classify_build(o1, text):
+    if o1[0] == "exc" and o1[1] == "AttributeError" and "__priv" in str(o1[2]) and "self.__priv" in text:
+        return "C09:class-private-name-not-mangled"
     if o1[0] == "exc" and o1[1] == "SyntaxError" and "comprehension iterable" in str(o1[2]):
         return "C09:walrus-in-comprehension-iterable"
     if o1[0] == "exc" and o1[1] == "UsageError" and "call_next(*" in text:
